@@ -1,9 +1,9 @@
 #!/bin/bash
-# runs every claimed property's check at the given tier in three parallel streams (units are locked per unit, so streams that share a unit wait for each other)
+# runs every claimed property's check at the given tier in two parallel streams (properties that share a unit are in one stream; two streams keep
+# the memory footprint below the machine's 62 GB -- three streams of thorough checks made CBMC processes fail for lack of memory)
 tier=${1:-quick}
 cd /verif
 run() { for p in "$@"; do s=$(date +%s); ./check $p --tier $tier > build/all-$p-$tier.log 2>&1; rc=$?; e=$(date +%s); echo "$p tier=$tier exit=$rc wall=$((e-s))s $(tail -1 build/all-$p-$tier.log | cut -c1-160)"; done; }
-run C16 C02 C09 C10 C12 &
-run C15 C03 C04 C18 C11 &
-run C13 C07 C05 C08 &
+run C13 C09 C10 C12 C11 C18 C16 C15 &
+run C02 C03 C04 C05 C07 C08 &
 wait
